@@ -450,6 +450,12 @@ def _heartbeats(run, F, PV, D, V2):
                               where=m.loc(r), message=f"{mname}: reply field `{k}` is {sorted(got)[:1]}, expected `{base + suffix}`")
                 run.check("R5", set(flat) == set(want), f"{mname}: documented fields only", key=f"{mname}|fields", where=m.loc(r),
                           message=f"{mname}: reply fields {sorted(flat)}")
+                # the data is reported only when the command object said it gathered it: element 0 of the same result is true on every path here
+                flag = _strip(f"self.hsm2dongle.{call}(request['udValue'])[0]")
+                ftexts = {_strip(t) for t in F.expanded(m, V2, rn, PV)} | {_strip(f.text()) for f in F.local(m, V2, rn)}
+                run.check("R5", flag in ftexts, f"{mname}: the reply is built under the result's success flag", key=f"{mname}|flag", where=m.loc(r),
+                          message=f"{mname}: the heartbeat reply is returned without `{flag}` being true on that path: on a failed gathering element 1 is not the "
+                                  "heartbeat data (and a gathered heartbeat would be answered as a device error)")
     for cq, dname in (("ledger.hsm2dongle_cmds.signer_heartbeat.HSM2SignerHeartbeat", "get_signer_heartbeat"),
                       ("ledger.hsm2dongle_cmds.ui_heartbeat.HSM2UIHeartbeat", "get_ui_heartbeat")):
         ci = P.cls(cq)
